@@ -321,6 +321,7 @@ def D(base=None, secret=0, auth=(), extra=None, flags=(), tamper=(), fault=True,
 # the Run drivers inherit the \expect clauses of the Start functions they call (bake.h documents them there)
 RUNHAND = [("ok_params", "a.ok_params = 1", "ERR_BAD_PARAMS", "as bake*Start: parameters params are valid"),
            ("ok_rng", "a.ok_rng = 1", "ERR_BAD_RNG", "as bake*Start: generator settings->rng is valid")]
+CERTHAND = [("ok_cert", "a.ok_cert = 1", "ERR_ANY", "the caller's validator (val) accepts the peer's certificate")]
 
 
 KL = {"len": 32}
@@ -429,9 +430,10 @@ DRIVE = {
     "bakeBMQVRunB": D({"certlen": 69}, 1, auth=["ERR_ANY"], tamper=["msg1", "msg2", "msg1kca"],
                       hand=RUNHAND, extra={"certlen": [64, 600]}),
     "bakeBSTSRunA": D({"certlen": 69}, 1, auth=["ERR_ANY"],
-                      tamper=["msg1", "msg2", "msgcert", "short"], hand=RUNHAND, extra={"certlen": [64, 600, 1100]}),
+                      tamper=["msg1", "msg2", "msgcert", "short"], hand=RUNHAND + CERTHAND, extra={"certlen": [64, 600, 1100]}),
     "bakeBSTSRunB": D({"certlen": 69}, 1, auth=["ERR_ANY"],
-                      tamper=["msg1", "msg2", "msgcert", "short"], hand=RUNHAND, extra={"certlen": [64, 600, 1100]}),
+                      tamper=["msg1", "msg2", "msgcert", "short"], hand=RUNHAND + CERTHAND, extra={"certlen": [64, 600, 1100]}),
+    "btokBAuthTStep5": D({"certlen": 72}, 1, auth=["ERR_ANY"], tamper=["msg"], hand=CERTHAND, extra={"certlen": [64, 600]}),
     "bakeBPACERunA": D({"pwd_len": 4}, 1, auth=["ERR_ANY"], tamper=["msg1", "msg2", "pwd", "pwdkcb", "msg1kcb"], hand=RUNHAND, extra={"pwd_len": [0, 1, 8]}),
     "bakeBPACERunB": D({"pwd_len": 4}, 1, auth=["ERR_ANY"], tamper=["msg1", "msg2", "pwd", "pwdkca", "msg1kca"], hand=RUNHAND, extra={"pwd_len": [0, 1, 8]}),
     # ---- bpki
